@@ -78,6 +78,21 @@ func rootCause(cls, stmt string) string {
 	return ""
 }
 
+// staticCls maps a static fault class to the run-time error class the same defect produces.
+func staticCls(class string) string {
+	switch {
+	case strings.HasPrefix(class, "settime of"):
+		return "Failed to pop a timestamp"
+	case strings.HasPrefix(class, "integer operand of representation f"):
+		return "unexpected int type float64"
+	case strings.HasSuffix(class, "of representation b"):
+		return "unexpected type bool"
+	case class == "stack underflow", strings.Contains(class, "operand of representation D"), strings.Contains(class, "expects a metric"), strings.HasPrefix(class, "boolean not of"), strings.Contains(class, "operand of representation M"), strings.Contains(class, "operand of representation x"):
+		return "panic"
+	}
+	return class
+}
+
 type prog struct {
 	family, ident, src string
 	lines              []string
@@ -133,7 +148,7 @@ func main() {
 		}
 		progs = append(progs, prog{"example", filepath.Base(e), string(b), logLines})
 	}
-	var accepted, linesRun, errsSeen int64
+	var accepted, linesRun, errsSeen, absStates, absTrans int64
 	classes := map[string]int{}
 	vlib.ParallelW(len(progs), runtime.NumCPU(), func(w, i int) {
 		pr := progs[i]
@@ -145,6 +160,20 @@ func main() {
 		}
 		atomic.AddInt64(&accepted, 1)
 		c.Eval(pr.family + ":" + pr.src)
+		// static: every reachable (pc, abstract stack) state of the emitted bytecode
+		sf, ss, capped := verify(p.Obj, 200000)
+		atomic.AddInt64(&absStates, int64(ss.states))
+		atomic.AddInt64(&absTrans, int64(ss.transitions))
+		if capped {
+			c.CapHit("abstract state cap reached for a program")
+		}
+		for _, f := range sf {
+			k := fmt.Sprintf("static [%s] %s: %s", f.class, pr.family, pr.ident)
+			if rc := rootCause(staticCls(f.class), pr.ident); rc != "" && strings.HasPrefix(pr.family, "ctx/") {
+				k = "accepted-but-ill-typed: " + rc
+			}
+			c.Report(k, fmt.Sprintf("program:\n%s\nbytecode verification: at pc %d %s with abstract stack [%s]: %s", pr.src, f.pc, f.instr, f.stack, f.class), map[string]interface{}{"family": pr.family, "program": pr.src, "pc": f.pc, "instruction": f.instr, "abstract_stack": f.stack})
+		}
 		// every line on a fresh VM state is covered by running the alphabet twice in sequence
 		seq := append(append([]string{}, pr.lines...), pr.lines...)
 		reported := map[string]bool{}
@@ -196,9 +225,11 @@ func main() {
 	c.Set("programs_accepted", accepted)
 	c.Set("lines_executed", linesRun)
 	c.Set("runtime_errors_observed", errsSeen)
+	c.Set("abstract_states", absStates)
+	c.Set("abstract_transitions", absTrans)
 	c.Assume = []string{
 		"runtime errors are classified by message: conversion failures, strptime failures, divide by zero, shift/base out of range, unmatched capture group, missing datum for a delayed delete and number/string comparison failures are the checked conditions; everything else (unexpected ... type, panic in thread, illegal instruction, Invalid re index, Failed to pop ...) is a fault",
-		"the static bytecode check described in DESIGN.md is not part of this run",
+		"static part: abstract values are the run-time representations the VM distinguishes (bool, int64, int, float64, string, duration, metric and datum by data kind); each instruction's transfer function mirrors what vm.execute accepts; both successors of a conditional jump are explored",
 	}
-	c.Finish("every compiler-accepted program among: the typed mtl families of C01; statements in context (every binary operator between 14 atoms, unary forms, constant trees, every builtin with 0-3 arguments from 17 argument forms) x 3 (thorough 5) placements; the example programs over the first 60 lines of every test log; each run over its line alphabet twice with HardCrash set: no panic, every runtime error is one of the VM's checked conditions; distinct_nontrivial = distinct accepted programs")
+	c.Finish("every compiler-accepted program among: the typed mtl families of C01; statements in context (every binary operator between 14 atoms, unary forms, constant trees, every builtin with 0-3 arguments from 17 argument forms) x 3 (thorough 5) placements; the example programs over the first 60 lines of every test log; each (dynamic) run over its line alphabet twice with HardCrash set: no panic, every runtime error is one of the VM's checked conditions; and (static) every reachable (pc, abstract stack) state of its bytecode explored: no stack underflow, no operand of a representation the instruction does not accept, jump targets and table operands in range; distinct_nontrivial = distinct accepted programs")
 }
